@@ -1,6 +1,159 @@
 package main
 
-import "verif/vf"
+import (
+	"fmt"
+	"os"
+	"sync/atomic"
+	"time"
 
-// handover is harness B; filled in once the full-stack harness exists.
-func handover(r *vf.Run) {}
+	"github.com/brutella/hc/accessory"
+	"github.com/brutella/hc/verifhook"
+
+	"verif/harness/app"
+	"verif/refctl"
+	"verif/vf"
+)
+
+// schedule: 0 natural, 1 late abort (pause after the socket write), 2 late background read
+var schedule int32
+var delaysTaken int64
+
+func installHandoverHook() {
+	verifhook.Install(func(point string) {
+		switch atomic.LoadInt32(&schedule) {
+		case 1:
+			if point == "conn.write.done" {
+				atomic.AddInt64(&delaysTaken, 1)
+				time.Sleep(20 * time.Millisecond)
+			}
+		case 2:
+			if point == "conn.read.enter" {
+				atomic.AddInt64(&delaysTaken, 1)
+				time.Sleep(time.Millisecond)
+			} else if point == "conn.write.enter" {
+				atomic.AddInt64(&delaysTaken, 1)
+				time.Sleep(5 * time.Millisecond)
+			}
+		}
+	})
+}
+
+var scheduleNames = []string{"natural", "late-abort", "late-background-read"}
+
+// handover is harness B: the plaintext -> ciphertext switch around the pair-verify M4 response.
+func handover(r *vf.Run) {
+	installHandoverHook()
+	dir := app.ScratchDir(r.WorkDir(), "handover")
+	defer os.RemoveAll(dir)
+	me := refctl.NewIdentity("handover-controller", r.Rand("handover-id"))
+	app.StoreController(dir, me)
+	sw := accessory.NewSwitch(accessory.Info{Name: "Handover"})
+	a, err := app.Start(dir, "00102003", sw.Accessory)
+	if err != nil {
+		r.Inconclusive("handover: transport did not start: " + err.Error())
+		return
+	}
+	defer a.Stop()
+	acc, ok := app.AccessoryEntity(dir)
+	if !ok {
+		r.Inconclusive("handover: accessory entity not found")
+		return
+	}
+	per := r.Pick(20, 200)
+	for mode := 0; mode < 3; mode++ {
+		n := per
+		if mode == 0 {
+			n = per * 5 // the natural rate of the race is low: more trials
+		}
+		atomic.StoreInt32(&schedule, int32(mode))
+		for i := 0; i < n; i++ {
+			r.Eval()
+			r.Count("handovers_"+scheduleNames[mode], 1)
+			oneHandover(r, a, me, acc, mode)
+		}
+		atomic.StoreInt32(&schedule, 0)
+	}
+	r.Count("handover_delays_taken", int(atomic.LoadInt64(&delaysTaken)))
+	r.Floor("handover_delays_taken", int(atomic.LoadInt64(&delaysTaken)), per)
+}
+
+func oneHandover(r *vf.Run, a *app.App, me *refctl.Identity, acc app.StoredEntity, mode int) {
+	w := func(extra string) map[string]interface{} {
+		return map[string]interface{}{"schedule": scheduleNames[mode], "detail": extra}
+	}
+	c, err := refctl.Dial(a.Addr)
+	if err != nil {
+		r.Inconclusive("handover dial: " + err.Error())
+		return
+	}
+	defer c.Close()
+	c.Timeout = 5 * time.Second
+	v, err := c.StartVerify(me, acc.PublicKey, acc.Name, nil)
+	if err != nil {
+		r.Violation("handover:"+stageSig(err), "pair-verify start failed: "+err.Error(), w(""))
+		return
+	}
+	if err := c.FinishVerify(v); err != nil {
+		se, _ := err.(*refctl.StageError)
+		if se != nil && se.Stage == "verify.M4.not-plaintext" {
+			r.Violation("handover:M4-not-plaintext", "the M4 response of pair-verify arrived encrypted (the session was promoted before M4 was written): "+se.Why, w(scheduleNames[mode]))
+			return
+		}
+		if se != nil && se.Transport == refctl.ErrTimeout {
+			r.Violation("handover:M4-unanswered", "no M4 response: "+err.Error(), w(""))
+			return
+		}
+		r.Violation("handover:"+stageSig(err), "pair-verify finish failed: "+err.Error(), w(""))
+		return
+	}
+	// three requests back to back, immediately
+	req := refctl.BuildRequest("GET", "/characteristics?id=1.2", "", nil)
+	if err := c.SendMany(req, req, req); err != nil {
+		r.Inconclusive("handover send: " + err.Error())
+		return
+	}
+	for k := 0; k < 3; k++ {
+		m, err := c.ReadResponse()
+		if err == refctl.ErrTimeout {
+			old := atomic.SwapInt32(&schedule, 0) // probes run without injected delays
+			un, late, perr := a.Unanswered(c)
+			atomic.StoreInt32(&schedule, old)
+			if perr != nil {
+				r.Inconclusive("handover probe: " + perr.Error())
+				return
+			}
+			if un {
+				r.Violation("handover:first-request-unanswered", fmt.Sprintf("request %d of 3 sent right after M4 was never answered (50 round trips on other connections completed meanwhile)", k+1), w(""))
+				return
+			}
+			m = late
+			err = nil
+		}
+		if err != nil {
+			r.Violation("handover:response-"+errClassH(err), fmt.Sprintf("response %d of 3 after the handover: %v", k+1, err), w(""))
+			return
+		}
+		if m.Status != 200 {
+			r.Violation("handover:response-status", fmt.Sprintf("response %d of 3 after the handover has status %d", k+1, m.Status), w(""))
+			return
+		}
+	}
+	r.Count("handovers_ok", 1)
+}
+
+func stageSig(err error) string {
+	if se, ok := err.(*refctl.StageError); ok {
+		return se.Stage
+	}
+	return "transport"
+}
+
+func errClassH(err error) string {
+	switch err.(type) {
+	case *refctl.ErrBadFrame:
+		return "bad-frame"
+	case *refctl.MalformedError:
+		return "malformed"
+	}
+	return "error"
+}
